@@ -162,6 +162,14 @@ func (changes *Changes) GetDSC() (*DSC, error) {
 	return nil, fmt.Errorf("No .dsc file in .changes")
 }
 
+func (changes *Changes) listedNames() []string {
+	ret := []string{}
+	for _, hash := range changes.Files {
+		ret = append(ret, hash.Filename)
+	}
+	return ret
+}
+
 // Copy the .changes file and all referenced files to the directory
 // listed by the dest argument. This function will error out if the dest
 // argument is not a directory, or if there is an IO operation in transfer.
@@ -170,6 +178,9 @@ func (changes *Changes) GetDSC() (*DSC, error) {
 // be used to move something into an incoming directory with an inotify
 // hook. This will also mutate Changes.Filename to match the new location.
 func (changes *Changes) Copy(dest string) error {
+	if err := checkListedNames(changes.listedNames()); err != nil {
+		return err
+	}
 	if file, err := os.Stat(dest); err == nil && !file.IsDir() {
 		return fmt.Errorf("Attempting to move .changes to a non-directory")
 	}
@@ -196,6 +207,9 @@ func (changes *Changes) Copy(dest string) error {
 // be used to move something into an incoming directory with an inotify
 // hook. This will also mutate Changes.Filename to match the new location.
 func (changes *Changes) Move(dest string) error {
+	if err := checkListedNames(changes.listedNames()); err != nil {
+		return err
+	}
 	if file, err := os.Stat(dest); err == nil && !file.IsDir() {
 		return fmt.Errorf("Attempting to move .changes to a non-directory")
 	}
@@ -218,6 +232,9 @@ func (changes *Changes) Move(dest string) error {
 // always remove the .changes last, in the event there are filesystem i/o errors
 // on removing associated files.
 func (changes *Changes) Remove() error {
+	if err := checkListedNames(changes.listedNames()); err != nil {
+		return err
+	}
 	for _, file := range changes.AbsFiles() {
 		err := os.Remove(file.Filename)
 		if err != nil {
